@@ -9,15 +9,27 @@ package hx
 // Redis conventions (RESP2).  Malformed invocations are answered with an error
 // reply before the database is touched.
 //
+// "Malformed" means ONLY: a wrong number of arguments, a token that
+// strconv.Atoi / strconv.ParseFloat rejects where the grammar has a number, an
+// unknown / repeated / conflicting option, or an odd number of field-value /
+// score-member arguments.  Everything else is passed to the documented API call
+// as it is and the API decides (NaN and underscored floats, COUNT <= 0, LIMIT
+// edge values, numkeys 0, ...).
+//
 // Conventions fixed here (see the comments at the individual commands):
-//   - an integer is what strconv.ParseInt(s, 10, 64) accepts;
-//   - a float is what strconv.ParseFloat(s, 64) accepts, except NaN and texts
-//     with underscores (Redis: "not a valid float");
-//   - a relative or absolute time that does not fit the API's time types is an
-//     "invalid expire time" error (as in Redis), not a wrapped-around value;
 //   - Redis features that the quoted grammar does not list (ZADD NX, WEIGHTS,
 //     exclusive score bounds "(1", LPUSH with several elements, LPOP count,
-//     FLUSHDB ASYNC, EXPIRE .. NX, ...) are malformed invocations.
+//     FLUSHDB ASYNC, EXPIRE .. NX, ...) are malformed invocations;
+//   - server conventions kept: PING answers the bulk "PONG"; a SCAN-family
+//     MATCH "" means "*"; SET .. EX/PX/EXAT/PXAT <= 0 mean "no expiry";
+//     ZRANK .. WITHSCORE on a missing member answers a null bulk;
+//   - handled=false (no statement): expiry arguments beyond woExpMax /
+//     woExpMaxAbsMs, INCRBY/DECRBY/LREM with math.MinInt64, ZRANGE by rank with
+//     non-integer ranks, PING with an empty message, ECHO with != 1 argument,
+//     TTL of a key that has an expiry;
+//   - specification kept although the server differs (at the time of writing):
+//     ZREVRANGEBYSCORE and ZRANGE .. BYSCORE REV take "max min"; SET .. XX GET
+//     on a missing key answers a null bulk.
 
 import (
 	"errors"
@@ -36,6 +48,21 @@ import (
 func WireUnordered(name string) bool {
 	switch strings.ToLower(name) {
 	case "smembers", "sunion", "sinter", "sdiff", "hkeys", "hvals", "keys":
+		return true
+	}
+	return false
+}
+
+// WireScan reports whether the command is of the SCAN family.  The oracle
+// returns the items in the order of the API (row ids) and the API's cursor;
+// both agree with the server only if the twin assigned the same row ids, which
+// is NOT guaranteed after commands whose API call takes a Go map with several
+// entries (MSET, HSET/HMSET, ZADD with more than one pair: the insertion order
+// is the map iteration order).  Callers that generate such commands should
+// compare scan replies more weakly (item multiset of a full iteration).
+func WireScan(name string) bool {
+	switch strings.ToLower(name) {
+	case "scan", "sscan", "hscan", "zscan":
 		return true
 	}
 	return false
@@ -175,7 +202,6 @@ func woErrArgs() (RV, bool)   { return ErrReply("ERR wrong number of arguments")
 func woErrSyntax() (RV, bool) { return ErrReply("ERR syntax error"), true }
 func woErrInt() (RV, bool)    { return ErrReply("ERR value is not an integer or out of range"), true }
 func woErrFloat() (RV, bool)  { return ErrReply("ERR value is not a valid float"), true }
-func woErrExpire() (RV, bool) { return ErrReply("ERR invalid expire time"), true }
 
 // woErr turns an API error into an error reply.
 func woErr(err error) (RV, bool) { return ErrReply("ERR " + err.Error()), true }
@@ -183,20 +209,16 @@ func woErr(err error) (RV, bool) { return ErrReply("ERR " + err.Error()), true }
 func woIsNotFound(err error) bool { return errors.Is(err, redka.ErrNotFound) }
 
 func woInt(b []byte) (int, bool) {
-	n, err := strconv.ParseInt(string(b), 10, 64)
+	n, err := strconv.Atoi(string(b))
 	if err != nil {
 		return 0, false
 	}
-	return int(n), true
+	return n, true
 }
 
 func woFloat(b []byte) (float64, bool) {
-	s := string(b)
-	if strings.ContainsRune(s, '_') {
-		return 0, false
-	}
-	f, err := strconv.ParseFloat(s, 64)
-	if err != nil || math.IsNaN(f) {
+	f, err := strconv.ParseFloat(string(b), 64)
+	if err != nil {
 		return 0, false
 	}
 	return f, true
@@ -258,44 +280,38 @@ func woOpts(rest [][]byte, spec map[string]int) (map[string][][]byte, bool) {
 	return out, true
 }
 
-// woDuration converts n units (unit = time.Second or time.Millisecond) to a
-// Duration; ok=false if it does not fit.
-func woDuration(n int, unit time.Duration) (time.Duration, bool) {
-	lim := int64(math.MaxInt64) / int64(unit)
-	if int64(n) > lim || int64(n) < -lim {
-		return 0, false
-	}
-	return time.Duration(n) * unit, true
-}
+// Expiry arguments beyond these bounds (in absolute value) are not covered:
+// the server and the API types wrap around in different ways there.
+const (
+	woExpMax      = 4_000_000_000      // seconds or milliseconds
+	woExpMaxAbsMs = 9_000_000_000_000 // absolute milliseconds (PXAT, PEXPIREAT)
+)
 
-// woTime converts an absolute time in seconds (unitMs=1000) or milliseconds
-// (unitMs=1) since the epoch; ok=false if the millisecond value does not fit.
-func woTime(n int, unitMs int64) (time.Time, bool) {
-	lim := int64(math.MaxInt64) / unitMs
-	if int64(n) > lim || int64(n) < -lim {
-		return time.Time{}, false
-	}
-	return time.UnixMilli(int64(n) * unitMs), true
-}
+// woExpCovered reports whether the expiry argument is within the covered range.
+func woExpCovered(n int, lim int) bool { return n <= lim && n >= -lim }
 
 // ---------------------------------------------------------------------------
 // connection / server
 
-// PING [message]: simple string PONG, or the message as a bulk.
+// PING [message]: the bulk "PONG" (server convention; Redis: simple string),
+// or the message as a bulk.  An empty message is not covered.
 func woPing(db *redka.DB, name string, a [][]byte) (RV, bool) {
 	switch len(a) {
 	case 0:
-		return Simple("PONG"), true
+		return BulkS("PONG"), true
 	case 1:
+		if len(a[0]) == 0 {
+			return RV{}, false
+		}
 		return Bulk(a[0]), true
 	}
 	return woErrArgs()
 }
 
-// ECHO message
+// ECHO message (other argument counts are not covered)
 func woEcho(db *redka.DB, name string, a [][]byte) (RV, bool) {
 	if len(a) != 1 {
-		return woErrArgs()
+		return RV{}, false
 	}
 	return Bulk(a[0]), true
 }
@@ -363,11 +379,10 @@ func woExpire(db *redka.DB, name string, a [][]byte) (RV, bool) {
 	if name == "pexpire" {
 		unit = time.Millisecond
 	}
-	d, ok := woDuration(n, unit)
-	if !ok {
-		return woErrExpire()
+	if !woExpCovered(n, woExpMax) {
+		return RV{}, false
 	}
-	err := db.Key().Expire(string(a[0]), d)
+	err := db.Key().Expire(string(a[0]), time.Duration(n)*unit)
 	if woIsNotFound(err) {
 		return Int(0), true
 	}
@@ -387,13 +402,17 @@ func woExpireAt(db *redka.DB, name string, a [][]byte) (RV, bool) {
 	if !ok {
 		return woErrInt()
 	}
-	unitMs := int64(1000)
+	var at time.Time
 	if name == "pexpireat" {
-		unitMs = 1
-	}
-	at, ok := woTime(n, unitMs)
-	if !ok {
-		return woErrExpire()
+		if !woExpCovered(n, woExpMaxAbsMs) {
+			return RV{}, false
+		}
+		at = time.UnixMilli(int64(n))
+	} else {
+		if !woExpCovered(n, woExpMax) {
+			return RV{}, false
+		}
+		at = time.Unix(int64(n), 0)
 	}
 	err := db.Key().ExpireAt(string(a[0]), at)
 	if woIsNotFound(err) {
@@ -460,7 +479,7 @@ func woRenameNX(db *redka.DB, name string, a [][]byte) (RV, bool) {
 }
 
 // woScanOpts parses [MATCH pattern] [COUNT count] (and [TYPE type] if withType).
-// COUNT must be positive (Redis: syntax error otherwise).
+// COUNT is passed to the API as given; MATCH "" means "*" (server convention).
 func woScanOpts(rest [][]byte, withType bool) (match string, count int, ktype string, errReply *RV) {
 	spec := map[string]int{"match": 1, "count": 1}
 	if withType {
@@ -472,16 +491,13 @@ func woScanOpts(rest [][]byte, withType bool) (match string, count int, ktype st
 		return fail(ErrReply("ERR syntax error"))
 	}
 	match = "*"
-	if v, ok := o["match"]; ok {
+	if v, ok := o["match"]; ok && len(v[0]) > 0 {
 		match = string(v[0])
 	}
 	if v, ok := o["count"]; ok {
 		n, ok := woInt(v[0])
 		if !ok {
 			return fail(ErrReply("ERR value is not an integer or out of range"))
-		}
-		if n < 1 {
-			return fail(ErrReply("ERR syntax error"))
 		}
 		count = n
 	}
@@ -625,11 +641,10 @@ func woIncrBy(db *redka.DB, name string, a [][]byte) (RV, bool) {
 	if !ok {
 		return woErrInt()
 	}
+	if delta == math.MinInt64 {
+		return RV{}, false // the negation wraps around; not covered
+	}
 	if name == "decrby" {
-		if delta == math.MinInt64 {
-			// Redis: "decrement would overflow"
-			return woErrInt()
-		}
 		delta = -delta
 	}
 	n, err := db.Str().Incr(string(a[0]), delta)
@@ -696,9 +711,9 @@ func woMSet(db *redka.DB, name string, a [][]byte) (RV, bool) {
 // EXAT unix-time-seconds | PXAT unix-time-milliseconds | KEEPTTL]
 // -> Str().Set (no options) or Str().SetWith(...).Run.
 //
-// EX/PX <= 0 mean "no expiry" (recorded redka behaviour, SetExpires: "optional
-// expiration time (if ttl > 0)").  EXAT/PXAT <= 0 are an invalid expire time
-// (Redis).
+// EX/PX/EXAT/PXAT <= 0 mean "no expiry" (recorded redka behaviour, SetExpires:
+// "optional expiration time (if ttl > 0)").  Values beyond woExpMax /
+// woExpMaxAbsMs are not covered.
 func woSet(db *redka.DB, name string, a [][]byte) (RV, bool) {
 	if len(a) < 2 {
 		return woErrArgs()
@@ -719,6 +734,7 @@ func woSet(db *redka.DB, name string, a [][]byte) (RV, bool) {
 	var ttl time.Duration
 	var at time.Time
 	nExp := 0
+	covered := true
 	if keepTTL {
 		nExp++
 	}
@@ -732,33 +748,30 @@ func woSet(db *redka.DB, name string, a [][]byte) (RV, bool) {
 		if !ok {
 			return woErrInt()
 		}
+		if n <= 0 {
+			continue // no expiry
+		}
 		switch kw {
-		case "ex", "px":
-			unit := time.Second
-			if kw == "px" {
-				unit = time.Millisecond
-			}
-			d, ok := woDuration(n, unit)
-			if !ok {
-				return woErrExpire()
-			}
-			if d > 0 {
-				ttl = d
-			}
-		case "exat", "pxat":
-			unitMs := int64(1000)
-			if kw == "pxat" {
-				unitMs = 1
-			}
-			t, ok := woTime(n, unitMs)
-			if !ok || n <= 0 {
-				return woErrExpire()
-			}
-			at = t
+		case "ex":
+			covered = woExpCovered(n, woExpMax)
+			ttl = time.Duration(n) * time.Second
+		case "px":
+			covered = woExpCovered(n, woExpMax)
+			ttl = time.Duration(n) * time.Millisecond
+		case "exat":
+			covered = woExpCovered(n, woExpMax)
+			at = time.Unix(int64(n), 0)
+		case "pxat":
+			covered = woExpCovered(n, woExpMaxAbsMs)
+			at = time.UnixMilli(int64(n))
 		}
 	}
 	if nExp > 1 {
 		return woErrSyntax()
+	}
+
+	if !covered {
+		return RV{}, false
 	}
 
 	key := string(a[0])
@@ -815,11 +828,10 @@ func woSetEX(db *redka.DB, name string, a [][]byte) (RV, bool) {
 	if name == "psetex" {
 		unit = time.Millisecond
 	}
-	d, ok := woDuration(n, unit)
-	if !ok {
-		return woErrExpire()
+	if !woExpCovered(n, woExpMax) {
+		return RV{}, false
 	}
-	if err := db.Str().SetExpires(string(a[0]), a[2], d); err != nil {
+	if err := db.Str().SetExpires(string(a[0]), a[2], time.Duration(n)*unit); err != nil {
 		return woErr(err)
 	}
 	return Simple("OK"), true
@@ -980,12 +992,10 @@ func woLRem(db *redka.DB, name string, a [][]byte) (RV, bool) {
 	switch {
 	case count > 0:
 		n, err = db.List().DeleteFront(string(a[0]), a[2], count)
+	case count == math.MinInt64:
+		return RV{}, false // the negation wraps around; not covered
 	case count < 0:
-		c := math.MaxInt64
-		if count != math.MinInt64 {
-			c = -count
-		}
-		n, err = db.List().DeleteBack(string(a[0]), a[2], c)
+		n, err = db.List().DeleteBack(string(a[0]), a[2], -count)
 	default:
 		n, err = db.List().Delete(string(a[0]), a[2])
 	}
@@ -1488,15 +1498,16 @@ func woZIncrBy(db *redka.DB, name string, a [][]byte) (RV, bool) {
 }
 
 // woNumKeys parses "numkeys key [key ...]" and returns the keys and the rest.
-// numkeys must be at least 1 (Redis) and that many keys must follow.
+// numkeys must not be negative and that many keys must follow (numkeys 0: the
+// API is called with an empty key list).
 func woNumKeys(a [][]byte) (keys []string, rest [][]byte, errReply *RV) {
 	fail := func(rv RV) ([]string, [][]byte, *RV) { return nil, nil, &rv }
 	n, ok := woInt(a[0])
 	if !ok {
 		return fail(ErrReply("ERR value is not an integer or out of range"))
 	}
-	if n < 1 {
-		return fail(ErrReply("ERR at least 1 input key is needed"))
+	if n < 0 {
+		return fail(ErrReply("ERR wrong number of arguments"))
 	}
 	if n > len(a)-1 {
 		return fail(ErrReply("ERR syntax error"))
@@ -1635,9 +1646,9 @@ type woZRangeSpec struct {
 	count       int
 }
 
-// woRunRange runs ZSet().RangeWith(key).ByRank/ByScore[.Desc()][.Offset()][.Count()].Run()
-// with the Redis LIMIT semantics: a negative offset or a zero count select
-// nothing, a negative count means "no limit".
+// woRunRange runs ZSet().RangeWith(key).ByRank/ByScore[.Desc()][.Offset().Count()].Run().
+// LIMIT offset and count are passed to the API as given (the API ignores
+// values <= 0, and ignores both when ranging by rank).
 func woRunRange(db *redka.DB, sp woZRangeSpec) ([]woZI, error) {
 	c := db.ZSet().RangeWith(sp.key)
 	if sp.byScore {
@@ -1648,24 +1659,12 @@ func woRunRange(db *redka.DB, sp woZRangeSpec) ([]woZI, error) {
 	if sp.desc {
 		c = c.Desc()
 	}
-	empty := false
 	if sp.hasLimit {
-		if sp.offset < 0 || sp.count == 0 {
-			empty = true
-		}
-		if sp.offset > 0 {
-			c = c.Offset(sp.offset)
-		}
-		if sp.count > 0 {
-			c = c.Count(sp.count)
-		}
+		c = c.Offset(sp.offset).Count(sp.count)
 	}
 	res, err := c.Run()
 	if err != nil {
 		return nil, err
-	}
-	if empty {
-		return nil, nil
 	}
 	items := make([]woZI, 0, len(res))
 	for _, it := range res {
@@ -1677,8 +1676,9 @@ func woRunRange(db *redka.DB, sp woZRangeSpec) ([]woZI, error) {
 // ZRANGE key start stop [BYSCORE] [REV] [LIMIT offset count] [WITHSCORES]
 // -> ZSet().RangeWith(key).ByRank/ByScore...Run
 //
-// Redis: without BYSCORE start/stop are integer ranks and LIMIT is a syntax
-// error; with BYSCORE and REV the arguments are "max min".
+// With BYSCORE and REV the arguments are "max min" (Redis).  Without BYSCORE
+// start/stop are ranks: numbers that are not integers are not covered; LIMIT
+// is accepted (and ignored by the API's by-rank range).
 func woZRange(db *redka.DB, name string, a [][]byte) (RV, bool) {
 	if len(a) < 3 {
 		return woErrArgs()
@@ -1693,9 +1693,6 @@ func woZRange(db *redka.DB, name string, a [][]byte) (RV, bool) {
 	hasLimit, offset, count, ok := woLimit(o)
 	if !ok {
 		return woErrInt()
-	}
-	if hasLimit && !byScore {
-		return woErrSyntax()
 	}
 	sp := woZRangeSpec{key: string(a[0]), byScore: byScore, desc: rev,
 		hasLimit: hasLimit, offset: offset, count: count}
@@ -1713,6 +1710,11 @@ func woZRange(db *redka.DB, name string, a [][]byte) (RV, bool) {
 		start, ok1 := woInt(a[1])
 		stop, ok2 := woInt(a[2])
 		if !ok1 || !ok2 {
+			_, f1 := woFloat(a[1])
+			_, f2 := woFloat(a[2])
+			if f1 && f2 {
+				return RV{}, false // a number, but not an integer rank
+			}
 			return woErrInt()
 		}
 		sp.start, sp.stop = start, stop
@@ -1758,7 +1760,7 @@ func woZRangeByScore(db *redka.DB, name string, a [][]byte) (RV, bool) {
 }
 
 // ZRANK / ZREVRANK key member [WITHSCORE] -> ZSet().GetRank / GetRankRev.
-// Missing: null bulk, or (Redis, WITHSCORE) a null array.
+// Missing: null bulk (also with WITHSCORE; server convention).
 func woZRank(db *redka.DB, name string, a [][]byte) (RV, bool) {
 	if len(a) < 2 {
 		return woErrArgs()
@@ -1777,9 +1779,6 @@ func woZRank(db *redka.DB, name string, a [][]byte) (RV, bool) {
 		rank, score, err = db.ZSet().GetRankRev(string(a[0]), a[1])
 	}
 	if woIsNotFound(err) {
-		if withScore {
-			return RV{Kind: '*', Null: true}, true
-		}
 		return NullBulk(), true
 	}
 	if err != nil {
